@@ -151,4 +151,137 @@ def normalise (trials : List Fn) (c : Cond) : List Cond :=
 def IsCond (c : Cond) : Prop :=
   ∃ p0 ic0, mkCond c.lhs c.rhs c.boundary p0 ic0 = .ok c
 
+/-! ### operation sequences (heap of condition objects) -/
+
+/-- every address stored in an equation points into the heap -/
+def World.WF (w : World) : Prop := ∀ e ∈ w.eqs, ∀ a ∈ e.2, a < w.heap.length
+
+theorem getAll_congr (h h' : List Cond) (as : List Nat) (hh : ∀ a ∈ as, h'[a]? = h[a]?) :
+    getAll h' as = getAll h as := by
+  induction as with
+  | nil => rfl
+  | cons a as ih =>
+    simp only [getAll]
+    rw [hh a (by simp), ih (fun b hb => hh b (by simp [hb]))]
+
+theorem setPos_length (h : List Cond) (a p : Nat) : (setPos h a p).length = h.length := by
+  induction h generalizing a with
+  | nil => rfl
+  | cons c cs ih => cases a <;> simp [setPos, ih]
+
+theorem setPos_get_ne (h : List Cond) (a b p : Nat) (hne : b ≠ a) : (setPos h a p)[b]? = h[b]? := by
+  induction h generalizing a b with
+  | nil => rfl
+  | cons c cs ih =>
+    cases a with
+    | zero =>
+      cases b with
+      | zero => exact absurd rfl hne
+      | succ b => simp [setPos]
+    | succ a =>
+      cases b with
+      | zero => simp [setPos]
+      | succ b => simp [setPos, ih a b (by omega)]
+
+theorem freshAddrs_mem (n k a : Nat) (h : a ∈ freshAddrs n k) : n ≤ a ∧ a < n + k := by
+  induction k generalizing n with
+  | zero => simp [freshAddrs] at h
+  | succ k ih =>
+    simp only [freshAddrs, List.mem_cons] at h
+    rcases h with rfl | h
+    · omega
+    · have := ih (n + 1) h; omega
+
+theorem getAll_fresh (h out : List Cond) : getAll (h ++ out) (freshAddrs h.length out.length) = some out := by
+  induction out generalizing h with
+  | nil => rfl
+  | cons c cs ih =>
+    simp only [List.length_cons, freshAddrs, getAll]
+    have h1 : (h ++ c :: cs)[h.length]? = some c := by simp
+    have h2 := ih (h ++ [c])
+    simp only [List.length_append, List.length_cons, List.length_nil, List.append_assoc, List.cons_append,
+      List.nil_append, Nat.zero_add] at h2
+    rw [h1, h2]
+
+/-- the heap below its old length is untouched by `new` and `build` -/
+theorem step_heap_prefix (w : World) (op : Op) (hop : ∀ a p, op ≠ .reposition a p) (a : Nat) (ha : a < w.heap.length) :
+    (step w op).heap[a]? = w.heap[a]? := by
+  cases op with
+  | new c => simp [step, List.getElem?_append_left ha]
+  | build trials addrs =>
+    simp only [step]
+    split
+    · rfl
+    · split
+      · rfl
+      · simp [List.getElem?_append_left ha]
+  | reposition a p => exact absurd rfl (hop a p)
+
+theorem step_eqs_prefix (w : World) (op : Op) (k : Nat) (hk : k < w.eqs.length) :
+    (step w op).eqs[k]? = w.eqs[k]? ∧ w.eqs.length ≤ (step w op).eqs.length := by
+  cases op with
+  | new c => simp [step]
+  | build trials addrs =>
+    simp only [step]
+    split
+    · simp
+    · split
+      · simp
+      · simp [List.getElem?_append_left hk]
+  | reposition a p =>
+    simp only [step]
+    split <;> simp
+
+theorem step_wf (w : World) (op : Op) (hw : w.WF) : (step w op).WF := by
+  cases op with
+  | new c =>
+    intro e he a ha
+    have := hw e he a ha
+    simp [step]; omega
+  | build trials addrs =>
+    simp only [step]
+    split
+    · exact hw
+    · split
+      · exact hw
+      · intro e he a ha
+        simp only [List.mem_append, List.mem_singleton] at he
+        simp only [List.length_append]
+        rcases he with he | rfl
+        · have := hw e he a ha; omega
+        · have := freshAddrs_mem _ _ a ha; omega
+  | reposition a p =>
+    simp only [step]
+    split
+    · exact hw
+    · intro e he b hb
+      simp only [setPos_length]
+      exact hw e he b hb
+
+/-- one operation never changes what an equation built earlier reports -/
+theorem step_frame (w : World) (op : Op) (hw : w.WF) (k : Nat) (hk : k < w.eqs.length) :
+    readEq (step w op) k = readEq w k := by
+  unfold readEq
+  rw [(step_eqs_prefix w op k hk).1]
+  have hke : w.eqs[k]? = some w.eqs[k] := List.getElem?_eq_getElem hk
+  rw [hke]
+  simp only
+  apply getAll_congr
+  intro a ha
+  have hlt : a < w.heap.length := hw _ (List.getElem_mem hk) a ha
+  cases op with
+  | reposition a0 p =>
+    simp only [step]
+    split
+    · rfl
+    · rename_i hown
+      apply setPos_get_ne
+      intro e
+      subst e
+      apply hown
+      simp only [World.owned, List.any_eq_true]
+      exact ⟨_, List.getElem_mem hk, by simpa using ha⟩
+  | new c => exact step_heap_prefix w _ (by intro a p h; cases h) a hlt
+  | build t as => exact step_heap_prefix w _ (by intro a p h; cases h) a hlt
+
 end Sympde.BC
